@@ -115,21 +115,33 @@ def arr_map(E, fn, arrs, kind, node=None):
     for a in arrs:
         if isinstance(a, NdArr) and (ref is None or a.ndim > ref.ndim):
             ref = a
+    stretched = {}       # id(array) -> axes of extent 1 (e.g. v[:, numpy.newaxis]) that numpy stretches along the reference shape
     for a in arrs:
         if isinstance(a, NdArr) and a is not ref:
-            if a.ndim == ref.ndim:
+            if a.ndim == ref.ndim and any(isinstance(s, int) and s == 1 and not (isinstance(r, int) and r == 1) for s, r in zip(a.shape, ref.shape)):
+                ax = [k for k, (s, r) in enumerate(zip(a.shape, ref.shape)) if isinstance(s, int) and s == 1 and not (isinstance(r, int) and r == 1)]
+                stretched[id(a)] = ax
+                shapes_equal(E, tuple(r for k, r in enumerate(ref.shape) if k not in ax), tuple(s for k, s in enumerate(a.shape) if k not in ax), node)
+            elif a.ndim == ref.ndim:
                 shapes_equal(E, ref.shape, a.shape, node)
             elif a.ndim == 1 and ref.ndim == 2:
                 shapes_equal(E, (ref.shape[1],), a.shape, node)      # numpy broadcasting: a vector along the rows of a matrix
             else:
                 raise Unsupported("broadcast between ranks %d and %d" % (a.ndim, ref.ndim))
     frozen = [a.snapshot() if isinstance(a, NdArr) else a for a in arrs]
+    axes = {id(fz): stretched.get(id(a), []) for fz, a in zip(frozen, arrs) if isinstance(a, NdArr)}
+
+    def at(x, i):
+        j = list(i[len(i) - x.ndim:])
+        for k in axes.get(id(x), []):
+            j[k] = 0
+        return j
 
     def f(*i):
-        return fn(*[(x.get(*i[len(i) - x.ndim:]) if isinstance(x, NdArr) else znum(x)) for x in frozen])
+        return fn(*[(x.get(*at(x, i)) if isinstance(x, NdArr) else znum(x)) for x in frozen])
 
     nan_srcs = [x for x in frozen if isinstance(x, NdArr) and x.cell.nan is not None]
-    nanfn = (lambda *i: z3.Or(*[x.isnan(*i[len(i) - x.ndim:]) for x in nan_srcs])) if nan_srcs else None
+    nanfn = (lambda *i: z3.Or(*[x.isnan(*at(x, i)) for x in nan_srcs])) if nan_srcs else None
     out = NdArr.from_fn("t", ref.shape, kind, f, nanfn)
     if any(isinstance(a, NdArr) and getattr(a.cell, "masked", False) for a in arrs):
         out.cell.masked = True         # numpy.ma: the result of an operation on masked arrays is masked where an operand is
@@ -365,6 +377,9 @@ def assign_view(E, dst, val, node):
         fs = src.snapshot()
         nanfn = (lambda *i: fs.isnan(*i)) if fs.cell.nan is not None else None
         dst.assign_fn(lambda *i: cast(fs.get(*i), dst.kind), nanfn)
+        hook = getattr(dst.cell, "on_copy", None)
+        if hook is not None:
+            hook(dst.cell)          # ghost counting: the array gets a name again (lemma triggers cannot contain the lambda of the copy)
         return
     if val is NaN:
         dst.assign_fn(lambda *i: z3.RealVal(0), lambda *i: z3.BoolVal(True))
@@ -461,6 +476,8 @@ def arr_method(R, E, arr, name, args, kwargs, node):
             m = E.int("ravel_len")
             a0, a1 = z(arr.shape[0]), z(arr.shape[1])
             E.assume(z3.And(m >= 0, z3.Implies(z3.And(a0 >= 1, a1 >= 1), m >= 1), z3.Implies(z3.Or(a0 == 0, a1 == 0), m == 0)))
+            # the exact length is a product of two symbolic sizes: kept out of the first solver stages (non-linear), available in the last one
+            E.axiom(z3.Implies(z3.And(a0 >= 0, a1 >= 0), m == a0 * a1), requested=False)
             out = NdArr.fresh("ravel", (m,), arr.kind, nan=arr.cell.nan is not None)
             out.cell.read_only_model = True
             return out
